@@ -1,46 +1,13 @@
 package main
 
 import (
-	"context"
-	"fmt"
-	"os"
-
 	"verifharness/commitx"
 	"verifharness/hx"
-	"verifharness/txk"
 )
 
-func main() { hx.Main(run, "", nil, nil) }
-
-func run(o hx.RunOpts) error {
-	ctx := context.Background()
-	p := hx.NewPrng(o.Seed)
-	s := hx.NewSession(o, "generated multi-store transaction programs x one injected fault per backend call of Commit")
-	nprog := o.N(6, 60)
-	for i := 0; i < nprog; i++ {
-		pr := commitx.Gen(p.Fork())
-		pr.SepVals = false
-		base, err := commitx.Run(ctx, pr, "", 0, txk.None, false)
-		if err != nil {
-			return err
-		}
-		if base.SetupErr != nil || base.Res.OpenErr != nil {
-			fmt.Fprintln(os.Stderr, "skip", base.SetupErr, base.Res)
-			continue
-		}
-		commitx.Emit(ctx, s, base, pr.Header()+" nofault")
-		calls := commitx.CommitCalls(base.Res)
-		occ := map[string]int{}
-		for _, name := range calls {
-			occ[name]++
-			for _, kind := range []txk.Fault{txk.FailBefore, txk.FailAfter} {
-				ob, err := commitx.Run(ctx, pr, name, occ[name], kind, true)
-				if err != nil {
-					return err
-				}
-				commitx.Emit(ctx, s, ob, fmt.Sprintf("%s %s#%d:%v", pr.Header(), name, occ[name], kind))
-			}
-		}
-	}
-	return s.Finish()
+func main() {
+	hx.Main(func(o hx.RunOpts) error {
+		return commitx.Campaign(o, "C01", "generated transaction programs over 1-2 stores (new stores, first roots, splits at slot length 2/4, updates, removes, reads) run through the real commit code on real fs backends; each program once fault-free and once per (backend call made by Commit, failBefore|failAfter); "+
+			"every run is replayed on Model P (same write set, fresh ids, fault) and the backend-call traces, final registry/blob/count/log state and the fault-free retry are diffed; oracle: a cold reader in another process sees exactly the before-state after an error and exactly the operations' reported results after success. distinct = canonical case hash; non-trivial = a fault was injected")
+	}, "", nil, nil)
 }
